@@ -353,7 +353,9 @@ class IndexedSet(MutableSet):
 
     def intersection_update(self, *others):
         "intersection_update(*others) -> discard self.difference(*others)"
-        for val in self.difference(*others):
+        # drop whatever is not in *all* of the others (difference(*others)
+        # alone is only what is in *none* of them)
+        for val in self.difference(self.intersection(*others)):
             self.discard(val)
 
     def difference_update(self, *others):
